@@ -1,4 +1,5 @@
 // C01: SU_vector <-> Hermitian matrix, linear operations, ==, Transpose, Real/Imag.
+#define VF_EARLY
 #include "bind.hpp"
 using namespace vf;
 
@@ -239,6 +240,7 @@ int main(int argc, char** argv) {
       if ((va == vb) != want) violation("operator==:cross-dimension", J().i("d1", d1).i("d2", d2).arr("a", a).arr("b", b).done());
     }
   }
+  check_early({1});
   finish();
   return 0;
 }
